@@ -80,6 +80,8 @@ int main(void) {
   struct itimerval it = { { 0, 300 }, { 0, 300 } }; long i, s = 0;
   signal(SIGALRM, handler); setitimer(ITIMER_REAL, &it, NULL);
   for (i = 0; i < 60000; i++) { long r = mid(i); if (r != (i * 3 + 1) + (i * 3 + 4) + (long)(i * 2.0 + 0.5)) { mix(i); break; } s += r; }
+  /* natively the loop above can be over before the first tick: keep calling traced functions until some signals have arrived */
+  for (i = 0; ticks < 5; i = (i + 1) % 1000) { long r = mid(i); if (r != (i * 3 + 1) + (i * 3 + 4) + (long)(i * 2.0 + 0.5)) { mix(i + 100000); break; } }
   it.it_value.tv_usec = 0; it.it_interval.tv_usec = 0; setitimer(ITIMER_REAL, &it, NULL);
   mix(s); mix(ticks > 0);
   report_to("main"); return 9;
